@@ -307,6 +307,17 @@ def eliminate_returns(stmts):
             if ra and rb:
                 out.append(ast.If(test=s.test, body=body, orelse=orelse))
                 return out, True
+            if not ra and not rb:
+                # a branch returns on some of its paths only: what follows the statement is continued inside both branches
+                # (tail duplication), where every return is again the end of a path
+                if sum(1 for t in rest for _x in ast.walk(t)) > 400:
+                    return None
+                a2 = eliminate_returns(list(s.body) + copy.deepcopy(rest))
+                b2 = eliminate_returns(list(s.orelse) + copy.deepcopy(rest))
+                if a2 is None or b2 is None:
+                    return None
+                out.append(ast.If(test=s.test, body=a2[0] or [ast.Pass()], orelse=b2[0]))
+                return out, a2[1] and b2[1]
             r = eliminate_returns(rest)
             if r is None:
                 return None
@@ -372,6 +383,16 @@ def _loop_returns(stmts, flag=True):
             out.append(ast.If(test=s.test, body=a, orelse=b))
             continue
         if isinstance(s, (ast.For, ast.While)) and _has_return(s):
+            if s.orelse and not any(_has_return(x) for x in s.body):
+                # returns only in the else clause of an inner loop: that clause belongs to the enclosing loop's body (a break
+                # there leaves the enclosing loop)
+                b = _loop_returns(s.orelse, flag)
+                if b is None:
+                    return None
+                new = copy.copy(s)
+                new.orelse = b
+                out.append(new)
+                continue
             if s.orelse:
                 return None
             b = _loop_returns(s.body)
@@ -1869,6 +1890,109 @@ def rename_multi_def_temps(fn):
     return k
 
 
+def sink_result_copies(fn):
+    """if/else tree every path of which ends with `__t = E_k`, directly followed by `x = __t` (the only read of the inliner temporary
+    __t): each path assigns x itself - `x = E_k` - and the copy is dropped (`x = x` disappears).  Nothing runs between the end of
+    a path and the copy, so every E_k is evaluated in the same state and x receives the same value."""
+    k = 0
+
+    def leaves(stmts, t):
+        if not stmts:
+            return None
+        last = stmts[-1]
+        if isinstance(last, ast.Assign) and len(last.targets) == 1 and isinstance(last.targets[0], ast.Name) and last.targets[0].id == t:
+            return [(stmts, len(stmts) - 1)]
+        if isinstance(last, ast.If) and last.orelse:
+            a, b = leaves(last.body, t), leaves(last.orelse, t)
+            if a is None or b is None:
+                return None
+            return a + b
+        return None
+    again = True
+    while again:
+        again = False
+        for b in _blocks(fn):
+            for i in range(1, len(b)):
+                s = b[i]
+                if isinstance(s, ast.Return) and isinstance(s.value, ast.Name) and s.value.id.startswith("__") and isinstance(b[i - 1], ast.If):
+                    # the same for `return __t`: every path returns its own value
+                    t = s.value.id
+                    lv = leaves([b[i - 1]], t)
+                    if lv is None:
+                        continue
+                    leaf_ids = {id(blk[idx].targets[0]) for blk, idx in lv}
+                    if any(id(n) not in leaf_ids and n is not s.value for n in ast.walk(fn) if isinstance(n, ast.Name) and n.id == t):
+                        continue
+                    for blk, idx in lv:
+                        blk[idx] = ast.copy_location(ast.Return(value=blk[idx].value), blk[idx])
+                    del b[i]
+                    k += 1
+                    again = True
+                    break
+                if not (isinstance(s, ast.Assign) and len(s.targets) == 1 and isinstance(s.targets[0], ast.Name) and isinstance(s.value, ast.Name) and
+                        s.value.id.startswith("__") and s.targets[0].id != s.value.id and isinstance(b[i - 1], ast.If)):
+                    continue
+                x, t = s.targets[0].id, s.value.id
+                lv = leaves([b[i - 1]], t)
+                if lv is None:
+                    continue
+                leaf_ids = {id(blk[idx].targets[0]) for blk, idx in lv}
+                occ = [n for n in ast.walk(fn) if isinstance(n, ast.Name) and n.id == t]
+                if any(id(n) not in leaf_ids and n is not s.value for n in occ):
+                    continue
+                for blk, idx in lv:
+                    st = blk[idx]
+                    if isinstance(st.value, ast.Name) and st.value.id == x:
+                        blk[idx:idx + 1] = [] if len(blk) > 1 else [ast.copy_location(ast.Pass(), st)]
+                    else:
+                        st.targets[0].id = x
+                del b[i]
+                # a branch that became empty
+                t0 = b[i - 1]
+                stack = [t0]
+                while stack:
+                    u = stack.pop()
+                    if isinstance(u, ast.If):
+                        if u.orelse and all(isinstance(z, ast.Pass) for z in u.orelse):
+                            u.orelse = []
+                        stack.extend(u.body + u.orelse)
+                k += 1
+                again = True
+                break
+            if again:
+                break
+    if k:
+        ast.fix_missing_locations(fn)
+    return k
+
+
+def drop_tail_return_none(fn):
+    """`return None` / bare `return` in tail position (last statement of a chain of if/else blocks that ends the function body, not
+    inside a loop, try or with) is what falling off the end does anyway: dropped."""
+    k = [0]
+
+    def tail(stmts):
+        if not stmts:
+            return
+        last = stmts[-1]
+        if isinstance(last, ast.Return) and (last.value is None or (isinstance(last.value, ast.Constant) and last.value.value is None)):
+            if len(stmts) > 1:
+                del stmts[-1]
+            else:
+                stmts[-1] = ast.copy_location(ast.Pass(), last)
+            k[0] += 1
+            tail(stmts)
+        elif isinstance(last, ast.If):
+            tail(last.body)
+            tail(last.orelse)
+            if last.orelse and all(isinstance(z, ast.Pass) for z in last.orelse):
+                last.orelse = []
+    if any(isinstance(n, (ast.Yield, ast.YieldFrom)) for n in ast.walk(fn)):
+        return 0
+    tail(fn.body)
+    return k[0]
+
+
 def eliminate_result_copies(fn):
     """x = __t where EVERY definition of the local x is a copy of the same inliner temporary __t, and __t is not stored
     between any of those copies and a use of x it reaches (decided on the function's control-flow graph): x is __t - its uses
@@ -2407,6 +2531,211 @@ def argsort_to_sorted(fn):
     return k
 
 
+COUNTERS = [set()]      # attribute names whose every store in the analysed packages is `<obj>.X = <int constant >= 0>` or `<obj>.X += <int constant > 0>`
+
+
+def collect_counters(trees):
+    """Attributes that are non-negative integer counters by construction (every store of that attribute name, on any object,
+    anywhere in the analysed packages, assigns a non-negative integer literal or adds a positive one)."""
+    ok, bad = set(), set()
+    for tree in trees:
+        good_nodes = set()
+        for n in ast.walk(tree):
+            if isinstance(n, ast.Assign) and len(n.targets) == 1 and isinstance(n.targets[0], ast.Attribute) and isinstance(n.value, ast.Constant) and \
+                    type(n.value.value) is int and n.value.value >= 0:
+                good_nodes.add(id(n.targets[0]))
+                ok.add(n.targets[0].attr)
+            elif isinstance(n, ast.AugAssign) and isinstance(n.target, ast.Attribute) and isinstance(n.op, ast.Add) and isinstance(n.value, ast.Constant) and \
+                    type(n.value.value) is int and n.value.value > 0:
+                good_nodes.add(id(n.target))
+                ok.add(n.target.attr)
+        for n in ast.walk(tree):
+            if isinstance(n, ast.Attribute) and isinstance(n.ctx, (ast.Store, ast.Del)) and id(n) not in good_nodes:
+                bad.add(n.attr)
+            elif isinstance(n, ast.Call) and isinstance(n.func, ast.Name) and n.func.id in ("setattr", "delattr"):
+                return set()
+            elif isinstance(n, ast.Attribute) and n.attr == "__dict__":
+                return set()
+    return ok - bad
+
+
+def _known_range(c, pol):
+    """(expression source, lo, hi) known about an integer-or-None valued expression when test `c` has truth value `pol`:
+    E == K / E != K with K an int literal; for a non-negative counter E, not (E == 0) gives E >= 1."""
+    if isinstance(c, ast.Compare) and len(c.ops) == 1 and isinstance(c.comparators[0], ast.Constant) and type(c.comparators[0].value) is int:
+        K = c.comparators[0].value
+        E = c.left
+        op = c.ops[0]
+        if isinstance(op, ast.NotEq):
+            op, pol = ast.Eq(), not pol
+        if isinstance(op, ast.Eq):
+            if pol:
+                return src(E), K, K
+            if K == 0 and isinstance(E, ast.Attribute) and E.attr in COUNTERS[0]:
+                return src(E), 1, None
+    return None
+
+
+def _decide(t, c, pol, rng):
+    """Truth value of test `t` given that test `c` has truth value `pol` (None: not determined)."""
+    if src(t) == src(c):
+        return pol
+    if isinstance(t, ast.UnaryOp) and isinstance(t.op, ast.Not):
+        v = _decide(t.operand, c, pol, rng)
+        return None if v is None else not v
+    if isinstance(c, ast.UnaryOp) and isinstance(c.op, ast.Not):
+        return _decide(t, c.operand, not pol, _known_range(c.operand, not pol))
+    if isinstance(t, ast.Compare) and len(t.ops) == 1 and isinstance(c, ast.Compare) and len(c.ops) == 1 and src(t.left) == src(c.left) and \
+            src(t.comparators[0]) == src(c.comparators[0]):
+        pairs = {(ast.Eq, ast.NotEq), (ast.NotEq, ast.Eq), (ast.Is, ast.IsNot), (ast.IsNot, ast.Is), (ast.In, ast.NotIn), (ast.NotIn, ast.In)}
+        if (type(t.ops[0]), type(c.ops[0])) in pairs:
+            return not pol
+    if rng is not None and isinstance(t, ast.Compare) and len(t.ops) == 1 and src(t.left) == rng[0] and isinstance(t.comparators[0], ast.Constant) and \
+            type(t.comparators[0].value) is int:
+        K2 = t.comparators[0].value
+        lo, hi = rng[1], rng[2]
+        op = type(t.ops[0])
+        f = {ast.Lt: lambda a: a < K2, ast.LtE: lambda a: a <= K2, ast.Gt: lambda a: a > K2, ast.GtE: lambda a: a >= K2,
+             ast.Eq: lambda a: a == K2, ast.NotEq: lambda a: a != K2}.get(op)
+        if f is None:
+            return None
+        # the predicate is monotone or a point test: sample the end points and the points next to K2 that lie in the range
+        pts = {lo, K2 - 1, K2, K2 + 1} | ({hi} if hi is not None else {max(lo, K2) + 2})
+        pts = {a for a in pts if a >= lo and (hi is None or a <= hi)}
+        vals = {f(a) for a in pts}
+        if len(vals) == 1:
+            return vals.pop()
+    return None
+
+
+def _fold_test(t, c, pol, rng):
+    """(new test or True/False, number of atoms decided)"""
+    v = _decide(t, c, pol, rng)
+    if v is not None:
+        return v, 1
+    if isinstance(t, ast.BoolOp):
+        isand = isinstance(t.op, ast.And)
+        keep, k = [], 0
+        for o in t.values:
+            r, kk = _fold_test(o, c, pol, rng)
+            k += kk
+            if r is True or r is False:
+                if r != isand:
+                    # a False in an `and` / a True in an `or` decides the whole test only if the operands before it have no effect:
+                    # tests are pure here (checked by the caller)
+                    return r, k
+                continue
+            keep.append(r)
+        if not keep:
+            return isand, k
+        return (keep[0] if len(keep) == 1 else ast.BoolOp(op=t.op, values=keep)), k
+    if isinstance(t, ast.UnaryOp) and isinstance(t.op, ast.Not):
+        r, k = _fold_test(t.operand, c, pol, rng)
+        if r is True or r is False:
+            return (not r), k
+        return ast.UnaryOp(op=ast.Not(), operand=r), k
+    return t, 0
+
+
+def _specialise(stmts, c, pol, deps):
+    """Fold the If tests of a statement list under the knowledge `c is pol`, as long as nothing executed so far can have changed
+    what c reads.  Returns (new statement list, folds, still_valid)."""
+    rng = _known_range(c, pol)
+    out, k = [], 0
+    valid = True
+    for s in stmts:
+        if not valid:
+            out.append(s)
+            continue
+        if isinstance(s, ast.If):
+            if not pure_expr(s.test) or (writes_of(ast.Expr(value=s.test)) & deps):
+                valid = False
+                out.append(s)
+                continue
+            r, kk = _fold_test(s.test, c, pol, rng)
+            k += kk
+            body, k1, v1 = _specialise(s.body, c, pol, deps)
+            orelse, k2, v2 = _specialise(s.orelse, c, pol, deps)
+            if r is True:
+                out.extend(body)
+                k += k1
+                valid = v1
+            elif r is False:
+                out.extend(orelse)
+                k += k2
+                valid = v2
+            else:
+                k += k1 + k2
+                s.test, s.body, s.orelse = r, body or [ast.Pass()], orelse
+                out.append(s)
+                valid = v1 and v2
+            continue
+        if isinstance(s, (ast.For, ast.While, ast.With, ast.Try)):
+            if writes_of(s) & deps:
+                valid = False
+                out.append(s)
+                continue
+            for field in ("body", "orelse", "finalbody"):
+                blk = getattr(s, field, None)
+                if blk:
+                    nb, kk, _v = _specialise(blk, c, pol, deps)
+                    k += kk
+                    setattr(s, field, nb or [ast.Pass()])
+            out.append(s)
+            continue
+        out.append(s)
+        if writes_of(s) & deps:
+            valid = False
+    return out, k, valid
+
+
+def specialise_tail_on_test(fn):
+    """if c: A else: B;  T        where T tests c again (or something c decides), c is pure and neither A, B nor the part of T
+    before the re-test changes what c reads
+        ->   if c: A; T[c := True] else: B; T[c := False]
+    The two branches of a case distinction that were merged into one parameterised tail (`if not at_root: ...`,
+    `if at_root or done: ...`) are read as the two cases again.  Every path executes the same statements in the same order;
+    folded tests are pure and have the value they are replaced by."""
+    k = 0
+    params = {a.arg for a in fn.args.args + fn.args.kwonlyargs + fn.args.posonlyargs}
+    for _round in range(4):
+        changed = False
+        for blk in _blocks(fn):
+            for i, a in enumerate(blk):
+                if not (isinstance(a, ast.If) and a.orelse and i + 1 < len(blk)):
+                    continue
+                c = a.test
+                if not pure_expr(c) or any(isinstance(x, ast.Call) for x in ast.walk(c)):
+                    continue
+                deps = reads(c)
+                if not deps or "<heap>" in deps or "<state>" in deps:
+                    continue
+                if isinstance(c, ast.Name) and c.id in params:
+                    continue
+                if any(writes_of(t) & deps for t in a.body + a.orelse):
+                    continue
+                tail = blk[i + 1:]
+                size = sum(1 for t in tail for x in ast.walk(t) if isinstance(x, ast.stmt))
+                if size > 60 or any(isinstance(x, (ast.FunctionDef, ast.Lambda, ast.ClassDef)) for t in tail for x in ast.walk(t)):
+                    continue
+                t1, k1, _ = _specialise(copy.deepcopy(tail), c, True, deps)
+                t2, k2, _ = _specialise(copy.deepcopy(tail), c, False, deps)
+                if k1 + k2 == 0:
+                    continue
+                a.body = a.body + t1
+                a.orelse = a.orelse + t2
+                del blk[i + 1:]
+                ast.fix_missing_locations(a)
+                k += 1
+                changed = True
+                break
+            if changed:
+                break
+        if not changed:
+            break
+    return k
+
+
 def merge_repeated_tests(fn):
     """if f: A1 else: B1;  S;  if f: A2 else: B2     (f a local flag - a plain name, possibly negated - that nothing in between
     rebinds)   ->   if f: A1; S; A2 else: B1; S; B2.   Every path executes the same statements in the same order."""
@@ -2689,7 +3018,9 @@ def demote_attr_accumulators(fn, known):
     """x = ..; (loop updating x); self.A = x      ->      the loop works on self.A directly
     for a NEW local x whose final value is copied into self.A by one top-level statement, when self.A is not mentioned before
     that statement and nothing called before it can observe self.A (only getters, np./math. and builtins are called): on every
-    normally completing path the attribute ends with the same value and nobody saw the intermediate ones."""
+    normally completing path the attribute ends with the same value and nobody saw the intermediate ones.  (`before` is counted
+    from the first statement that mentions x; when the copy comes right after the definition and x is only mutated afterwards -
+    `p = [c]; self.A = p; ... p.append(..)` - x is an alias of the attribute's list and is read as the attribute.)"""
     params = {a.arg for a in fn.args.args + fn.args.kwonlyargs + fn.args.posonlyargs}
     k = 0
     for i, st in enumerate(list(fn.body)):
@@ -2702,12 +3033,24 @@ def demote_attr_accumulators(fn, known):
         i = fn.body.index(st)
         before = fn.body[:i]
         after = fn.body[i + 1:]
+        # what happens before the local first appears is the same in both versions: the window that matters starts there
+        first = [j for j, t in enumerate(before) if _mentions_name(t, x)]
+        if not first:
+            continue
+        before = before[first[0]:]
         if any(isinstance(n, ast.Attribute) and n.attr == A and isinstance(n.value, ast.Name) and n.value.id == "self" for t in before for n in ast.walk(t)):
             continue
         if any(isinstance(n, ast.Name) and n.id == x and isinstance(n.ctx, (ast.Store, ast.Del)) for t in after for n in ast.walk(t)):
             continue
         if not any(isinstance(n, ast.Name) and n.id == x and isinstance(n.ctx, ast.Store) for t in before for n in ast.walk(t)):
             continue
+        if any(_mentions_name(t, x) for t in after):
+            # x lives on as an alias of the attribute's object: the attribute must keep referring to that object
+            rebinders = {q.split(".")[-1] for q in (REBOUND_SITES[0] or {}).get(A, ())} - {fn.name}
+            if any(isinstance(n, ast.Attribute) and n.attr == A and isinstance(n.ctx, (ast.Store, ast.Del)) for t in after for n in ast.walk(t)) or \
+                    any(isinstance(n, ast.Call) and isinstance(n.func, ast.Attribute) and isinstance(n.func.value, ast.Name) and n.func.value.id == "self" and
+                        n.func.attr in rebinders for t in after for n in ast.walk(t)) or REBOUND_SITES[0] is None:
+                continue
         if any(isinstance(n, (ast.FunctionDef, ast.Lambda, ast.ListComp, ast.GeneratorExp, ast.SetComp, ast.DictComp)) and
                any(isinstance(m, ast.Name) and m.id == x for m in ast.walk(n)) for t in fn.body for n in ast.walk(t)):
             continue
@@ -3005,6 +3348,102 @@ def _free_jumps(stmts):
     return False
 
 
+def _own_breaks(block, out):
+    """(block, index) of every `break` that leaves the loop whose body `block` is; False if one sits where it cannot be followed"""
+    for idx, t in enumerate(block):
+        if isinstance(t, ast.Break):
+            out.append((block, idx))
+        elif isinstance(t, ast.If):
+            if not (_own_breaks(t.body, out) and _own_breaks(t.orelse, out)):
+                return False
+        elif isinstance(t, (ast.For, ast.While)):
+            # the else clause of an inner loop belongs to this loop's body; its body's breaks are its own
+            if not _own_breaks(t.orelse, out):
+                return False
+        elif isinstance(t, (ast.With, ast.Try)):
+            if any(isinstance(x, ast.Break) for x in ast.walk(t)):
+                return False
+    return True
+
+
+def flag_loops_to_else(fn):
+    """f = A;  loop (no else clause) every break of which is directly preceded by `f = B`   (A, B literals; f a local that the loop
+    does not mention otherwise and nothing between the initialisation and the loop mentions)
+        ->   loop ... else: f = A
+    The else clause runs exactly when the loop ends without a break, i.e. exactly when f would still hold A."""
+    k = 0
+    params = {a.arg for a in fn.args.args + fn.args.kwonlyargs + fn.args.posonlyargs}
+    for blk in _blocks(fn):
+        i = 0
+        while i < len(blk):
+            s = blk[i]
+            i += 1
+            if not (isinstance(s, (ast.For, ast.While)) and not s.orelse):
+                continue
+            brs = []
+            if not _own_breaks(s.body, brs) or not brs:
+                continue
+            flags = set()
+            sites = []
+            for b, idx in brs:
+                prev = b[idx - 1] if idx > 0 else None
+                if isinstance(prev, ast.Assign) and len(prev.targets) == 1 and isinstance(prev.targets[0], ast.Name) and isinstance(prev.value, ast.Constant):
+                    flags.add(prev.targets[0].id)
+                    sites.append(prev)
+                else:
+                    flags.add(None)
+            if len(flags) != 1 or None in flags:
+                continue
+            f = flags.pop()
+            if f in params:
+                continue
+            pos = blk.index(s)
+            init = [j for j in range(pos) if isinstance(blk[j], ast.Assign) and len(blk[j].targets) == 1 and isinstance(blk[j].targets[0], ast.Name) and
+                    blk[j].targets[0].id == f and isinstance(blk[j].value, ast.Constant)]
+            if not init:
+                continue
+            j = init[-1]
+            if any(_mentions_name(t, f) for t in blk[j + 1:pos]):
+                continue
+            site_ids = {id(x) for st in sites for x in ast.walk(st)}
+            if any(isinstance(n, ast.Name) and n.id == f and id(n) not in site_ids for n in ast.walk(s)):
+                continue
+            s.orelse = [blk[j]]
+            del blk[j]
+            i = blk.index(s) + 1
+            k += 1
+    if k:
+        ast.fix_missing_locations(fn)
+    return k
+
+
+def _never_none(e, fn, depth=0):
+    """The value of expression e is certainly not None: a non-None literal, a display, an element of a layer of the partition's
+    layer table (layers hold cells only - C03's R03-OWN), or a local with one definition of that kind."""
+    if isinstance(e, ast.Constant):
+        return e.value is not None
+    if isinstance(e, (ast.List, ast.Tuple, ast.Dict, ast.Set, ast.ListComp, ast.DictComp, ast.SetComp, ast.JoinedStr)):
+        return True
+    if isinstance(e, ast.Subscript) and isinstance(e.value, ast.Subscript) and not isinstance(e.slice, ast.Slice) and not isinstance(e.value.slice, ast.Slice):
+        nl = e.value.value
+        if src(nl) in ("self.partition.get_node_list()", "self.partition.node_list"):
+            return True
+        if isinstance(nl, ast.Name):
+            defs = [par for par in ast.walk(fn) if isinstance(par, ast.Assign) and any(isinstance(t, ast.Name) and t.id == nl.id for t in par.targets)]
+            stores = [n for n in ast.walk(fn) if isinstance(n, ast.Name) and n.id == nl.id and isinstance(n.ctx, (ast.Store, ast.Del))]
+            params = {a.arg for a in fn.args.args + fn.args.kwonlyargs + fn.args.posonlyargs}
+            return bool(defs) and len(defs) == len(stores) and nl.id not in params and \
+                all(src(d.value) in ("self.partition.get_node_list()", "self.partition.node_list") for d in defs)
+        return False
+    if isinstance(e, ast.Name) and depth < 3:
+        stores = [n for n in ast.walk(fn) if isinstance(n, ast.Name) and n.id == e.id and isinstance(n.ctx, (ast.Store, ast.Del))]
+        defs = [par for par in ast.walk(fn) if isinstance(par, ast.Assign) and len(par.targets) == 1 and isinstance(par.targets[0], ast.Name) and
+                par.targets[0].id == e.id]
+        params = {a.arg for a in fn.args.args + fn.args.kwonlyargs + fn.args.posonlyargs}
+        return len(stores) == 1 and len(defs) == 1 and e.id not in params and _never_none(defs[0].value, fn, depth + 1)
+    return False
+
+
 def thread_bool_flags(fn):
     """T; if <test on f>: X else: Y   where T is an if/else tree (or a loop with an else clause) every path of which ends with an
     assignment to the inliner temporary f, and the test is `f`, `not f`, `f is None` or `f is not None`: the test statement is
@@ -3050,8 +3489,10 @@ def thread_bool_flags(fn):
                         scan(t.body)
                         scan(t.orelse)
                     elif isinstance(t, (ast.For, ast.While)):
-                        if any(isinstance(x, ast.Break) for x in ast.walk(t)):
-                            pass        # breaks of an inner loop do not leave this one
+                        # breaks of an inner loop's body do not leave this one; those of its else clause do
+                        scan(t.orelse)
+                    elif isinstance(t, (ast.With, ast.Try)) and any(isinstance(x, ast.Break) for x in ast.walk(t)):
+                        ok[0] = False
             scan(last.body)
             if not ok[0] or not sites:
                 return None
@@ -3123,6 +3564,12 @@ def thread_bool_flags(fn):
                 for site_blk, idx in lv:
                     val = site_blk[idx].value
                     truth = static_truth(s.test, f, val.value) if isinstance(val, ast.Constant) else None
+                    if truth is None and not isinstance(val, ast.Constant) and _never_none(val, fn):
+                        t9, pol9 = s.test, True
+                        while isinstance(t9, ast.UnaryOp) and isinstance(t9.op, ast.Not):
+                            t9, pol9 = t9.operand, not pol9
+                        if isinstance(t9, ast.Compare) and isinstance(t9.ops[0], (ast.Is, ast.IsNot)):
+                            truth = isinstance(t9.ops[0], ast.IsNot) == pol9
                     if truth is None:
                         tail = [copy.deepcopy(s)]
                         site_blk[idx + 1:idx + 1] = tail
@@ -3412,6 +3859,17 @@ def rematerialise_loop_tests(fn):
     return k
 
 
+TREE_GETTERS = {"get_children", "get_parent", "get_depth", "get_index", "get_node_list", "get_layer_node_list", "get_root", "get_domain", "get_cpoint"}
+
+
+def par_of(root, node):
+    for a in ast.walk(root):
+        for c in ast.iter_child_nodes(a):
+            if c is node:
+                return a
+    return None
+
+
 def rematerialise_same_rhs(fn, known):
     """A NEW local x all of whose definitions have the same side-effect-free right-hand side E (a getter chain on locals):
     a read of x is a read of E wherever, on every path from a definition to that read, nothing E depends on is rebound and the
@@ -3438,6 +3896,11 @@ def rematerialise_same_rhs(fn, known):
                for m in ast.walk(fn) if m is not fn):
             continue
         deps = {n.id for n in ast.walk(val) if isinstance(n, ast.Name)}
+        # attribute chains read by E (`self.loc` in `cs[self.loc]`) are dependencies as well
+        deps |= {src(n) for n in ast.walk(val) if isinstance(n, ast.Attribute) and not isinstance(par_of(val, n), ast.Call)}
+        other_getters = any(isinstance(c, ast.Call) and not (isinstance(c.func, ast.Attribute) and c.func.attr in TREE_GETTERS) and
+                            not src(c.func).startswith(PURE_NS) and not (isinstance(c.func, ast.Name) and c.func.id in PURE_CALL_NAMES)
+                            for c in ast.walk(val))
         if g is None:
             try:
                 g = C.CFG(fn)
@@ -3449,7 +3912,8 @@ def rematerialise_same_rhs(fn, known):
             continue
         writers = [n for n in g.nodes if n.ast is not None and n not in dnodes and
                    ((E.stored_locs(n) & deps) or any(isinstance(c, ast.Call) and isinstance(c.func, ast.Attribute) and c.func.attr in TREE_GROWERS
-                                                     for r in E.node_exprs(n) for c in ast.walk(r)))]
+                                                     for r in E.node_exprs(n) for c in ast.walk(r)) or
+                    (other_getters and any("<state>" in writes_of(ast.Expr(value=r)) for r in E.node_exprs(n))))]
         loads = [n for n in ast.walk(fn) if isinstance(n, ast.Name) and n.id == x and isinstance(n.ctx, ast.Load)]
         ok = bool(loads)
         for u in loads:
@@ -4131,6 +4595,7 @@ def normalize_tree(file, tree, vocab):
             t0 += dict_calls_to_displays(f) + islice_to_slices(f) + split_fold_accumulators(f)
             t0 += expand_return_ifexp(f) + unroll_literal_loops(f) + expand_dict_splats(f) + open_inline_splats(f)
             t0 += rematerialise_loop_tests(f)
+            t0 += specialise_tail_on_test(f)
             t0 += merge_repeated_tests(f)
             t0 += fold_none_tests(f, cname)
             t0 += seed_list_literals(f)
@@ -4145,9 +4610,12 @@ def normalize_tree(file, tree, vocab):
             t0 += coalesce_copies(f)
             t0 += rename_result_temps(f)
             t0 += rename_multi_def_temps(f)
+            t0 += sink_result_copies(f)
+            t0 += drop_tail_return_none(f)
             t0 += eliminate_result_copies(f)
             t0 += forward_copy_temps(f)
             t0 += coalesce_inout(f)
+            t0 += flag_loops_to_else(f)
             t0 += thread_bool_flags(f)
             if t0:
                 log.append("%s.%s: %d parallel assignment(s) split / result temporaries renamed" % (cname, f.name, t0))
